@@ -316,6 +316,23 @@ def _manager():
                     rec['witness'] = {'kind': 'manager', 'R': list(sub_r), 'D': list(sub_d), 'H': list(sub_h)}
                 records.append(rec)
                 nontrivial.append(tag)
+    # restraints already parsed by the caller (parse_restrictions=False): dictionaries in any species order, possibly partial
+    for order in itertools.permutations(names):
+        for keep in (3, 2):
+            R = {k: ([(0, 1)] if k != 'BBB' else [(1, 1)]) for k in order[:keep]}
+            D = {'AAA': (0, 1), 'BBB': (2,), 'CCC': (0,)}
+            H = {'AAA': False, 'BBB': True, 'CCC': False}
+            del started[:]
+            m = manager()
+            m.align_molecules(restrictions=R, deformation_types=D, ignore_hydrogens=H, parse_restrictions=False)
+            got = {s[0]: s[1:] for s in started}
+            ok = set(got) == set(R) and all(got[k] == (R[k], D[k], H[k]) for k in R)
+            tag = 'parse_restrictions=False, restraint dictionary in species order %s' % (list(R),)
+            rec = {'name': tag + ': each species\' alignment receives exactly its own values', 'status': 'unsat' if ok else 'sat', 'secs': 0}
+            if not ok:
+                rec['witness'] = {'kind': 'manager', 'R': list(R), 'D': list(D), 'H': list(H)}
+            records.append(rec)
+            nontrivial.append(tag)
     # rejected inputs: nothing may be started
     bads = [('unknown species in restraints', dict(restrictions={'ZZZ': [(0, 0)]}), KeyError),
             ('unknown species in deformations', dict(deformation_types={'ZZZ': (0,)}), KeyError),
